@@ -41,5 +41,7 @@ import NucsProofs.Examples.Counts
   that many vectors: `C20_solver_count_queens_8`).
   Not proved: the larger literature counts, preservation of satisfiability and optimum by symmetry
   breaking in general (tested).  Noted by the count proofs: for ODD n the shipped symmetry-breaking Schur model
-  posts lexicographic_leq on 3n variables (an odd number), outside that constraint's documented shape.
+  posts lexicographic_leq on 3n variables (an odd number), outside that constraint's documented shape; the
+  contract of lexicographic_leq and its local theorems were then generalised to odd arity (the last variable
+  is ignored, as the code does).
 -/
